@@ -174,6 +174,15 @@ def falsify(ctx):
         for fw in common.FRAMEWORKS:
             cases.append(([("Root", [{"name": "first", key: 7}, {"name": "second"}, {"name": "third", key: None}])], fw))
             cases.append(([("Root", [{"name": "first", key: "x"}, {"name": "second"}])], fw))
+    # one registry rendered for two frameworks in a row (a field only ever null / a list only ever empty is left out by the
+    # pydantic family and must still be there for the others)
+    first_fw = {}
+    for fw0 in ("pydantic", "sqlmodel", "attrs"):
+        for fw in ("dataclasses", "attrs", "base", "pydantic"):
+            if fw != fw0:
+                first_fw[len(cases)] = fw0
+                cases.append(([("Root", [{"id": 1, "deleted_at": None, "tags": [], "sub": {"gone": None, "k": 1}},
+                                         {"id": 2, "deleted_at": None, "tags": [], "sub": {"gone": None, "k": 2}}])], fw))
     sweep_from = len(cases)
     for samples in gen.pseudo_mix_sweep():
         cases.append(([("Root", samples)], "pydantic"))
@@ -202,6 +211,9 @@ def falsify(ctx):
         job["preamble"] = None
         if i < sweep_from:
             job["meta"] = (i % 2 == 0)
+        if i in first_fw:
+            job.update({"renderFirst": rng.choice(["flat", "nested"]), "renderFirstFw": first_fw[i]})
+            job.pop("structureReuse", None)
         case_registry = registry if spec == {"kinds": list(ALL), "datetime": False} else \
             stages.make_registry(tuple(spec["kinds"]), datetime=spec["datetime"])
         try:
